@@ -52,7 +52,7 @@ ASSUMPTIONS = [
 REQUIRED_COUNTERS = [
     "files_exported", "rom_decoded", "rom_commands_compared", "rom_loads_compared", "parse_compared",
     "neg_wrong_kek", "neg_model_rejected", "neg_spsdk_judged", "cfg_exports", "cli_exports", "witness_load_count",
-    "second_exports_judged",
+    "second_exports_judged", "kek_given_by_argument",
 ]
 CASE_TIMEOUT_S = 300
 WATCHDOG_S = {"quick": 1200, "thorough": 7200}
@@ -521,7 +521,16 @@ def write_config(spec, wdir, bd):
     cb_path = os.path.join(wdir, "cert_block.yaml")
     with open(cb_path, "w", encoding="utf-8") as f:
         yaml.safe_dump(cb_cfg, f, sort_keys=False)
-    cfg = {"family": spec.get("family", "rt5xx"), "containerOutputFile": os.path.join(wdir, "out.sb2"), "containerKeyBlobEncryptionKey": kek_path,
+    kek_in_cfg = kek_path
+    if spec.get("kek_by_argument"):
+        # the caller names the key file explicitly (key_file_path= / -k): it is THAT key the file must open with, whatever
+        # key the configuration carries (the schema makes the configuration carry one)
+        other = bytes(b ^ 0x5A for b in spec["kek"])
+        kek_in_cfg = os.path.join(wdir, "kek_of_the_configuration.txt") if spec["kek_by_argument"] == "file" else other.hex()
+        if spec["kek_by_argument"] == "file":
+            with open(kek_in_cfg, "w", encoding="ascii") as f:
+                f.write(other.hex())
+    cfg = {"family": spec.get("family", "rt5xx"), "containerOutputFile": os.path.join(wdir, "out.sb2"), "containerKeyBlobEncryptionKey": kek_in_cfg,
            "RKTHOutputPath": os.path.join(wdir, "rkth.bin"), "certBlock": cb_path, "signPrivateKey": pki.path(signer, "priv", "pem"),
            "options": opts, "sections": []}
     n = 0
@@ -1001,6 +1010,9 @@ def run_case(case, ctx):  # noqa: C901
             for s in spec["sections"]:
                 s["commands"] = [c for c in s["commands"] if keyword.get(c["k"], c["k"]) in supported] or [
                     {"k": "version_check", "type": 0, "version": rng.getrandbits(20)}]
+        if not use_cli_certs and case["k"] % 3 == 1:
+            spec["kek_by_argument"] = core.pick(rng, ["file", "literal"])
+            ctx.count("kek_given_by_argument")
         path, kek_path, certs, signer, table = write_config(spec, wdir, bd=use_cli_certs)
         out = os.path.join(wdir, "out.sb2")
         if kind == "cfg":
@@ -1008,6 +1020,8 @@ def run_case(case, ctx):  # noqa: C901
 
             def build():
                 cfg = BootImageV21.parse_sb21_config(path)
+                if spec.get("kek_by_argument"):
+                    return BootImageV21.load_from_config(cfg, key_file_path=kek_path, search_paths=[wdir]).export()
                 return BootImageV21.load_from_config(cfg, search_paths=[wdir]).export()
 
             data = export_or_report(ctx, spec, build, "cfg")
@@ -1019,6 +1033,8 @@ def run_case(case, ctx):  # noqa: C901
             from spsdk.apps import nxpimage
 
             args = ["sb21", "export", "-c", path, "-o", out]
+            if spec.get("kek_by_argument"):
+                args += ["-k", kek_path]
             if use_cli_certs:
                 args += ["-k", kek_path, "-s", pki.path(signer, "priv", "pem"), "-h", os.path.join(wdir, "rkth_cli.bin")]
                 for p in certs:
